@@ -194,7 +194,7 @@ CLAIMED = {
              "socket has taken exactly the message - complete, once, in order (C10_success_means_complete, for all messages and all answer sequences); otherwise what was taken is a "
              "prefix and success is not reported (C10_otherwise_prefix); the same for a block cut into packets of any size (C10_block_success_complete); a loop that treats one "
              "accepted send() as 'all sent' is refuted (C10_oneshot_refuted). Tied to the code by running send_data against scripted sockets and by real loopback transfers up "
-             "to 4 MiB with small socket buffers and three receiver pacings.",
+             "to 4 MiB with small socket buffers and three receiver pacings. One message, one connection: the socket is looked up once per message (regenerated flag); whenever the connection is replaced between two send() calls the following connection gets no byte of the message and success still means the first one took all of it (C10_message_stays_on_its_connection; the code before D79 refuted).",
         note=NOTE_COMMON + " Partial: the kernel's TCP (what the socket took is what the peer reads, in order) is trusted; the busy wait for writability (a peer that never reads keeps "
              "send_data waiting rather than failing) and the receiving side's recv loop are outside the model.",
         technique="Rocq proof (induction over arbitrary socket behaviours) + Python-ast shape translator + in-Coq differential correspondence on scripted sockets + loopback transfers",
